@@ -175,3 +175,20 @@ impl Freezer {
         Ok(())
     }
 }
+
+#[cfg(feature = "verif-hooks")]
+impl Freezer {
+    /// verif-hooks: set the data-file size limit and the open-files (LRU) capacity of an opened
+    /// freezer (`Freezer::open` always uses the builder defaults); changes no other state
+    pub fn verif_set_limits(&self, max_file_size: u64, open_files_limit: usize) {
+        self.inner
+            .lock()
+            .files
+            .verif_set_limits(max_file_size, open_files_limit);
+    }
+
+    /// verif-hooks: read-only, hash of the in-memory tip header
+    pub fn verif_tip_hash(&self) -> Option<packed::Byte32> {
+        self.inner.lock().tip.as_ref().map(|header| header.hash())
+    }
+}
